@@ -124,3 +124,23 @@ Theorem describe_is_the_statistics_of_the_restriction :
           ++ map (xtile_sample (percentiles_of ec)) ps ++ [whole_max c].
 Proof. exact describe_reports_the_statistics_of_the_restriction. Qed.
 Print Assumptions describe_is_the_statistics_of_the_restriction.
+
+(* describe's 'unique' row: the number of distinct values the restricted function takes on its finite defined pieces
+   (Proofs/UniqueFacts.v: the percentile table of strictly increasing values has no redundant row, and clipping it to
+   [0, 100] closes it with one undefined row) *)
+Require Import SC.Proofs.UniqueFacts.
+
+Theorem the_percentile_function_has_one_step_per_distinct_value_and_a_closing_one :
+  forall (c ec pcc : stairsQ) (g : list (Qc * Qc)), wf c ->
+    value_sums c = Some g -> ecdf_of c = Some ec ->
+    clip (percentiles_of ec) (Some 0) (Some (q_of_Z 100)) = Ok pcc ->
+    number_of_steps pcc = S (length g).
+Proof. exact unique_counts_distinct_values. Qed.
+Print Assumptions the_percentile_function_has_one_step_per_distinct_value_and_a_closing_one.
+
+Theorem describe_unique_is_the_number_of_distinct_values :
+  forall (f c : stairsQ) lo hi (ps : list Qc) (l : list V) (g : list (Qc * Qc)), wf f ->
+    describe f lo hi ps = Ok l -> clip f lo hi = Ok c -> value_sums c = Some g ->
+    hd_error l = Some (Some (q_of_Z (Z.of_nat (length g)))).
+Proof. exact describe_unique. Qed.
+Print Assumptions describe_unique_is_the_number_of_distinct_values.
